@@ -235,6 +235,12 @@ func runC08(res *Result, d *Driver, tier string, seed uint64) {
 	cases := []vc{
 		{"rlimit-cpu", "spin 4000;exit 0", RunSpec{RLimits: cpu1}, runner.StatusTimeLimitExceeded, []string{"ptrace", "container"}, ""},
 		{"rlimit-fsize", "grow " + tmpf.Name() + " 100000;exit 0", RunSpec{RLimits: fs}, runner.StatusOutputLimitExceeded, []string{"ptrace", "container"}, "grow /tmp/g 100000;exit 0"},
+		// the limit is exhausted by another process or thread of the program (each process has the limits of the program;
+		// the parent waits and exits like a shell would, with 128+signal): under the tracing runner the verdict is the limit's
+		{"rlimit-cpu in a forked child", "fork;spin 4000;exit 0;endfork;wait;exit 152", RunSpec{RLimits: cpu1}, runner.StatusTimeLimitExceeded, []string{"ptrace"}, ""},
+		{"rlimit-fsize in a forked child", "fork;grow " + tmpf.Name() + " 100000;exit 0;endfork;wait;exit 153", RunSpec{RLimits: fs}, runner.StatusOutputLimitExceeded, []string{"ptrace"}, ""},
+		{"rlimit-fsize in a thread", "thread;grow " + tmpf.Name() + " 100000;endthread;join;exit 0", RunSpec{RLimits: fs}, runner.StatusOutputLimitExceeded, []string{"ptrace"}, ""},
+		{"rlimit-cpu in a thread", "thread;spin 4000;endthread;join;exit 0", RunSpec{RLimits: cpu1}, runner.StatusTimeLimitExceeded, []string{"ptrace"}, ""},
 		{"usage-time", "spin 300;exit 0", RunSpec{Limit: runner.Limit{TimeLimit: 100 * time.Millisecond, MemoryLimit: 1 << 40}}, runner.StatusTimeLimitExceeded, []string{"ptrace", "unshare"}, ""},
 		{"usage-mem", "mem 64;exit 0", RunSpec{Limit: runner.Limit{TimeLimit: time.Hour, MemoryLimit: 16 << 20}}, runner.StatusMemoryLimitExceeded, []string{"ptrace", "unshare"}, ""},
 		// the measured bound decides whatever way the program ends afterwards
